@@ -38,7 +38,9 @@ MANIFEST = {
             "first or last) x freq {0,0.1,0.5,1} x exclude_water x sidechain_only x cut-off settings {(0.25,120),(0.3,150),"
             "(0.2,90)} (thorough: 3x3; quick runs the custom cut-offs with n<=2 frames, freq {0,0.5}, default filters) x {no "
             "cell; cells cubic3, mono110 (thorough: + hex60, tric_75_100_115 at the default cut-offs) with every atom moved by "
-            "its own lattice vector; periodic True/False; n<=2 frames}. wernet_nilsson: {delta: 0,5,20,40,44.5,45.5,50,70,80 deg} x "
+            "its own lattice vector; periodic True/False; n<=2 frames; plus trajectories whose cell SHAPE changes from frame to frame "
+            "(cubic3>mono110, mono110>cubic3, ortho234>tric_75_100_115), each frame judged with its own cell}. Residue numbers "
+            "restart at 1 in every chain, so waters share their resSeq with peptide/ligand residues (and later residues do not). wernet_nilsson: {delta: 0,5,20,40,44.5,45.5,50,70,80 deg} x "
             "{r_DA: cone cut-off*(1+-{1e-3,1e-2,1e-1}), 0.5x, 0.33*(1+-1e-3), 0.5 nm} in 1..3 frames x the same options. "
             "kabsch_sander: residue pairs on {O..H distance ladder around the E=-0.5 root} x {N-H..O angle 180,150,120} x "
             "{C=O..H angle 180,150,120}, three competing acceptors in all 6 energy orders x 4 sequence positions, proline "
@@ -1373,13 +1375,13 @@ def run(ctx):
     # cell shape changing along the trajectory (rectangular <-> sheared), 2- and 3-frame patterns, every 3rd grid offset
     G0 = len(bh_grid(0.25, 120.0))
     for cn in ("cubic3>mono110", "mono110>cubic3", "ortho234>tric_75_100_115"):
-        for p in [q for q in _patterns(3) if len(q) >= 2]:
-            for gi in range(0, G0, 3 if quick else 1):
+        for p in [q for q in _patterns(2 if quick else 3) if len(q) >= 2]:
+            for gi in range(0, G0, 5 if quick else 1):
                 items.append(("bh", (0.25, 120.0), p, gi, cn))
     Gw = len(wn_grid())
     for cn in ("cubic3>mono110", "mono110>cubic3"):
         for p in pats2[1:]:
-            for gi in range(0, Gw, 3 if quick else 1):
+            for gi in range(0, Gw, 5 if quick else 1):
                 items.append(("wn", (0.25, 120.0), p, gi, cn))
     for p in _patterns(3):
         for gi in range(Gw):
